@@ -228,6 +228,113 @@ theorem accept_succeeds_once_valid_served (cfg : Cfg) (n : Node) (b : Block) (sc
     rw [heq] at hs; simp at hs
   · rfl
 
+/-- the shape of a script that "eventually serves the requested chunk for each missing chunk":
+for each missing chunk in turn any answers other than a send failure (application errors, invalid
+chunks, chunks with other ids …), then the chunk with the requested id. -/
+inductive ServesShape : List Nat → List Resp → Prop
+  | nil (sc : List Resp) : ServesShape [] sc
+  | cons (want : Nat) (rest : List Nat) (pre post : List Resp) :
+      (∀ r ∈ pre, r ≠ Resp.sendFail ∧ r ≠ Resp.chunk want) →
+      ServesShape rest post → ServesShape (want :: rest) (pre ++ Resp.chunk want :: post)
+
+theorem serves_of_shape (cfg : Cfg) (vmin : Nat) (ms : List Nat) (sc : List Resp) (h : ServesShape ms sc)
+    (hv : ∀ i ∈ ms, verifyChunk cfg vmin i = none) : Serves cfg vmin ms sc := by
+  induction h with
+  | nil sc => exact Serves.nil sc
+  | cons want rest pre post hpre _ ih =>
+    exact Serves.cons want rest pre post hpre (hv want (by simp)) (ih (fun i hi => hv i (by simp [hi])))
+
+/-- a chunk is valid *for block `b`* in the terms `Verify` applies to its certificate: signed by
+a validator, and `b.ts ≤ expiry ≤ b.ts + window`. -/
+def validAt (cfg : Cfg) (b : Block) (i : Nat) : Prop :=
+  (cfg.U i).valid = true ∧ b.ts ≤ (cfg.U i).expiry ∧ (cfg.U i).expiry ≤ b.ts + cfg.window
+
+/-- **C35 (2), in block terms** the referenced chunks are valid for the block (what `Verify`
+checked on the certificates), the node's chunk verifier stands at a timestamp not after the block
+(`vmin` = timestamp of the last accepted block), and — the extra condition the code needs, see
+`accept_never_succeeds_beyond_verifier_window` — every missing chunk's expiry is also within the
+window counted from `vmin` (true for chunks certified by validators that checked them against
+their own last accepted timestamp on this chain). Then `Accept` succeeds for every script of the
+shape `ServesShape`. -/
+theorem accept_succeeds_once_block_valid_served (cfg : Cfg) (n : Node) (b : Block) (script : List Resp)
+    (hnd : (b.certs.map (·.chunkID)).Nodup)
+    (hloc : ∀ c ∈ b.certs, getBytes cfg n.st c.expiry c.chunkID = true → hasPending n.st c.chunkID = true)
+    (hvalid : ∀ c ∈ b.certs, validAt cfg b c.chunkID)
+    (hmin : n.st.vmin ≤ b.ts)
+    (hwin : ∀ i ∈ missing cfg n.st b.certs, (cfg.U i).expiry ≤ n.st.vmin + cfg.window)
+    (hserve : ServesShape (missing cfg n.st b.certs) script) :
+    (accept cfg n b script).2 = .ok (b.certs.map (·.chunkID)) := by
+  apply accept_succeeds_once_valid_served cfg n b script hnd hloc
+  apply serves_of_shape cfg _ _ _ hserve
+  intro i hi
+  obtain ⟨c, hc, rfl⟩ := List.mem_map.1 hi
+  have hv := hvalid c (List.mem_filter.1 hc).1
+  have hw := hwin c.chunkID hi
+  unfold validAt at hv
+  simp only [verifyChunk]
+  rw [if_neg (by omega), if_neg (by omega)]
+  simp [hv.1]
+
+theorem fetch_none_of_rejected (cfg : Cfg) (want : Nat) (sc : List Resp) :
+    ∀ (s : Storage), hasPending s want = false → verifyChunk cfg s.vmin want ≠ none →
+      (fetch cfg want s sc).2.2 = none ∧ (fetch cfg want s sc).1 = s := by
+  induction sc with
+  | nil => intro s _ _; simp [fetch]
+  | cons r rest ih =>
+    intro s hp hv
+    cases r with
+    | appErr => simpa [fetch] using ih s hp hv
+    | sendFail => simp [fetch]
+    | chunk k =>
+      by_cases hk : k = want
+      · subst hk
+        cases hvc : verifyChunk cfg s.vmin k with
+        | none => exact absurd hvc hv
+        | some e =>
+          have : verifyRemote cfg s k = (s, .err e) := by
+            simp [verifyRemote, find_none_of_not_pending s k hp, hvc]
+          simp only [fetch, ne_eq, not_true_eq_false, if_false, this]
+          exact ih s hp hv
+      · simp only [fetch, ne_eq, hk, not_false_eq_true, if_true]
+        exact ih s hp hv
+
+/-- **C35 counterexample (known finding `accept-rejects-chunk-valid-at-block-timestamp`)** a
+block at timestamp `ts` may reference a chunk with `vmin + window < expiry ≤ ts + window`: the
+chunk is valid for the block (`Verify` accepts the certificate) but `VerifyRemoteChunk` judges it
+against the node's last `SetMin` and rejects it as "too far in the future" — whatever the peers
+serve, and however often they serve the right chunk, `Accept` never succeeds. -/
+theorem accept_never_succeeds_beyond_verifier_window (cfg : Cfg) (n : Node) (b : Block) (c : Cert)
+    (script : List Resp) (hb : b.certs = [c])
+    (hmiss : getBytes cfg n.st c.expiry c.chunkID = false)
+    (hbeyond : n.st.vmin + cfg.window < (cfg.U c.chunkID).expiry) :
+    (accept cfg n b script).2 = .fetch := by
+  have hp : hasPending n.st c.chunkID = false := by
+    simp only [getBytes, Bool.or_eq_false_iff] at hmiss; exact hmiss.1
+  have hv : verifyChunk cfg n.st.vmin c.chunkID ≠ none := by
+    simp only [verifyChunk]
+    split
+    · simp
+    · first
+        | simp
+        | (rw [if_pos (by omega)]; simp)
+  have hf := (fetch_none_of_rejected cfg c.chunkID script n.st hp hv).1
+  unfold accept
+  rw [hb]
+  simp only [acceptLoop, hmiss, Bool.false_eq_true, if_false]
+  generalize hfe : fetch cfg c.chunkID n.st script = r at hf
+  obtain ⟨s', sc', o⟩ := r
+  simp only at hf
+  subst hf
+  rfl
+
+def futCfg : Cfg := { U := fun _ => ⟨1, 6, 100, true⟩, window := 5, limit := 1000, maxSkew := 30 }
+/-- the witness replayed by the harness: verifier minimum 0, window 5, a block at 3 referencing a
+valid chunk with expiry 6 ≤ 3 + 5 -/
+example : validAt futCfg ⟨1, 0, 1, 3, [⟨2, 6, true⟩]⟩ 2 := by
+  simp [validAt, futCfg]
+example : (accept futCfg Node.init ⟨1, 0, 1, 3, [⟨2, 6, true⟩]⟩
+    [.chunk 2, .chunk 2, .chunk 2]).2 = .fetch := by decide
+
 /-- `VerifyRemoteChunk` does not depend on the rate limit or on the pending weights: a chunk
 that is not pending and passes the chunk verifier is stored, whatever `cfg.limit`/`sizes` say. -/
 theorem verifyRemote_ignores_rate_limit (cfg : Cfg) (s : Storage) (i : Nat)
